@@ -163,6 +163,54 @@ def gen():
     if not m: raise Shape('module extension')
     ext = m.group(1)
 
+    # --- the precedence ladder of the expression parser: expression -> or -> and -> ... -> unary -> call, each binary level a
+    # left-folding loop `let mut expr = self.NEXT()?; while <kinds> { .. let right = self.NEXT()?; .. }`
+    m = re.search(r'fn expression\(&mut self\) -> Result<Expr, PakhiErr> \{\s*self\.(\w+)\(\)\s*\}', parser)
+    if not m: raise Shape('fn expression')
+    level, ladder = m.group(1), []
+    for _ in range(12):
+        if level == 'unary': break
+        mm = re.search(r'fn %s\(&mut self\) -> Result<Expr, PakhiErr> \{\s*let mut expr = self\.(\w+)\(\)\?;\s*while (.*?)\{(.*?)\n        \}\s*return Ok\(expr\);\s*\}' % level, parser, re.S)
+        if not mm: raise Shape('ladder level ' + level)
+        nxt, cond, body = mm.group(1), mm.group(2), mm.group(3)
+        kinds = re.findall(r'self\.tok\(self\.current\)\.kind == TokenKind::\s*(\w+)', cond)
+        if not kinds or re.sub(r'self\.tok\(self\.current\)\.kind == TokenKind::\s*\w+|\|\||\s', '', cond) != '': raise Shape('ladder condition of ' + level)
+        rights = re.findall(r'let right = self\.(\w+)\(\)\?;', body)
+        if rights != [nxt] or 'self.current += 1;' not in body: raise Shape('ladder loop of ' + level)
+        if 'left: Box::new(expr)' not in body or 'right: Box::new(right)' not in body: raise Shape('ladder fold of ' + level)
+        ladder.append(kinds); level = nxt
+    else:
+        raise Shape('ladder does not reach unary')
+    mm = re.search(r'fn unary\(&mut self\) -> Result<Expr, PakhiErr> \{\s*if (.*?)\{(.*?)return self\.(\w+)\(\);\s*\}', parser, re.S)
+    if not mm: raise Shape('fn unary')
+    unary_kinds = re.findall(r'self\.tok\(self\.current\)\.kind == TokenKind::\s*(\w+)', mm.group(1))
+    if not unary_kinds or 'let right = self.unary()?;' not in mm.group(2) or mm.group(3) != 'call': raise Shape('unary level')
+
+    # --- the literals the three renderers write around container elements
+    def renderer_literals(fn):
+        mm = re.search(r'\n    fn %s\(.*?\n    \}\n' % fn, it, re.S)
+        if not mm: raise Shape('renderer ' + fn)
+        out = []
+        for call, arg in re.findall(r'self\.io\.(print|println)\(\s*(&\*format!\("(?:[^"\\]|\\.)*", k\)|"(?:[^"\\]|\\.)*")\s*\)', mm.group(0)):
+            if arg.startswith('&*format!'):
+                f = re.match(r'&\*format!\("((?:[^"\\]|\\.)*)", k\)', arg).group(1).replace('\\"', '"')
+                if f.count('{}') != 1: raise Shape('record key format in ' + fn)
+                out.append((call, 'key', f.split('{}')[0], f.split('{}')[1]))
+            else:
+                out.append((call, 'lit', arg[1:-1].replace('\\"', '"'), ''))
+        return out
+    lits = {fn: renderer_literals(fn) for fn in ('interpret_print_no_eol', 'print_datatype', 'interpret_print_stmt')}
+    shape = [(k, a, b) for _, k, a, b in lits['print_datatype']]
+    if [k for k, _, _ in shape] != ['lit', 'lit', 'lit', 'lit', 'key', 'lit', 'lit']: raise Shape('print_datatype literal sequence')
+    for fn in lits:
+        if [(k, a, b) for _, k, a, b in lits[fn]] != shape: raise Shape('renderers disagree on their literals: ' + fn)
+    if [c for c, _, _, _ in lits['print_datatype']] != ['print'] * 7 or [c for c, _, _, _ in lits['interpret_print_no_eol']] != ['print'] * 7:
+        raise Shape('print_datatype / print_no_eol must not end lines')
+    if [c for c, _, _, _ in lits['interpret_print_stmt']] != ['print', 'print', 'println', 'print', 'print', 'print', 'println']:
+        raise Shape('print statement: exactly the closing bracket / brace ends the line')
+    fmt = {'fmt_list_open': shape[0][1], 'fmt_list_sep': shape[1][1], 'fmt_list_close': shape[2][1], 'fmt_rec_open': shape[3][1],
+           'fmt_key_prefix': shape[4][1], 'fmt_key_suffix': shape[4][2], 'fmt_entry_end': shape[5][1], 'fmt_rec_close': shape[6][1]}
+
     # --- numeric characters of the running toolchain (dumped by the harness)
     ranges = []
     if os.path.exists(CHARTABLE):
@@ -195,6 +243,10 @@ def gen():
     o.append('Definition platform_const_parser : text := %s.' % coq_text(platform_parser))
     o.append('Definition dirname_const : text := %s.' % coq_text(dirname))
     o.append('Definition module_ext : text := %s.' % coq_text(ext))
+    o.append('Definition ladder : list (list tkind) :=\n  [' + '; '.join('[' + '; '.join(kind(k) for k in lv) + ']' for lv in ladder) + '].')
+    for name in ('fmt_list_open', 'fmt_list_sep', 'fmt_list_close', 'fmt_rec_open', 'fmt_key_prefix', 'fmt_key_suffix', 'fmt_entry_end', 'fmt_rec_close'):
+        o.append('Definition %s : text := %s.' % (name, coq_text(fmt[name])))
+    o.append('Definition unary_kinds : list tkind := [' + '; '.join(kind(k) for k in unary_kinds) + '].')
     return '\n'.join(o) + '\n'
 
 def main():
